@@ -72,3 +72,11 @@ Proof. split; [|split]; [| reflexivity | vm_compute; reflexivity].
   unfold channel_exists. vm_compute. apply Exists_cons_hd. unfold T0. cbn. repeat split.
   apply Exists_cons_hd. split; reflexivity.
 Qed.
+
+(* The model is tied to the CURRENT source: the order-of-effects facts about nsqd's core
+   functions that the model assumes (proofs/CoreSrcDefs.v) hold of the statement skeletons
+   regenerated from /repo on this run (gen/CoreShape.v). *)
+From NSQV Require proofs.CoreSrcDefs proofs.CoreSrcC01.
+Theorem C01_source_shape : CoreSrcDefs.src_facts_C01.
+Proof. exact CoreSrcC01.src_C01. Qed.
+Print Assumptions C01_source_shape.
